@@ -96,3 +96,24 @@ Qed.
 Lemma seg_fixed_returns :
   exists f, seg_factor_gen true 1 (f64_of_bits 0) (f64_of_bits 20240225330731) 29 = Ok f.
 Proof. eexists. vm_compute. reflexivity. Qed.
+
+(* the boolean check run on the implementation's cells decides "ascending and
+   at most 2^order - 1" *)
+From Coq Require Import Sorting.Sorted.
+Lemma sortedN_ok l : sortedN l = true <-> Sorted N.le l.
+Proof.
+  induction l as [|a [|b t] IH].
+  - split; [constructor | reflexivity].
+  - split; [intros _; repeat constructor | reflexivity].
+  - change (sortedN (a :: b :: t)) with ((a <=? b) && sortedN (b :: t)). split.
+    + intros H. apply andb_prop in H. destruct H as [H1 H2]. apply N.leb_le in H1.
+      constructor; [apply IH; assumption | constructor; assumption].
+    + intros H. inversion H as [|x l' Hs Hh]; subst. inversion Hh; subst.
+      apply andb_true_intro. split; [apply N.leb_le; assumption | apply IH; assumption].
+Qed.
+Lemma check_seg_ok order cells :
+  check_seg order cells = true <-> Sorted N.le cells /\ Forall (fun c => c <= 2 ^ order - 1) cells.
+Proof.
+  unfold check_seg. rewrite andb_true_iff, sortedN_ok, forallb_forall, Forall_forall.
+  split; intros [H1 H2]; split; try assumption; intros x Hx; apply N.leb_le; auto.
+Qed.
